@@ -376,6 +376,12 @@ func (ts *TestScript) cmdSkip(neg bool, args []string) {
 	}
 	ts.cmdWait(false, nil)
 
+	if ts.failed {
+		// An earlier line failed and we only got here because of ContinueOnError:
+		// the run must still be reported as failed, not as skipped.
+		ts.stopped = true
+		return
+	}
 	if len(args) == 1 {
 		ts.t.Skip(args[0])
 	}
